@@ -180,6 +180,38 @@ static void mul_sweep(const char *name, mul_fn f, int N)
 			}
 			g_reset();
 		}
+		/* in place (src == dest): rescaling a block where it lies; every variant reads each 32-byte group before it writes it */
+		if (len % 32 == 0 && len) {
+			uint8_t tbl[32];
+			uint8_t c = (uint8_t)(len * 5 + 0x53);
+			if (c < 2)
+				c = 2;
+			gf_vect_mul_init(c, tbl);
+			uint8_t *buf = g_alloc_end_aligned(len, 32);
+			memcpy(buf, M[2], len);
+			int r = -999;
+			if (V_TRY()) {
+				v_pcall_mode = 1 + (len & 1);
+				r = (int)PCALL(f, len, tbl, buf, buf);
+				V_END();
+				v_eval();
+				int bad = r != 0;
+				for (int j = 0; j < len && !bad; j++)
+					bad = buf[j] != rgf_mul(c, M[2][j]);
+				if (bad) {
+					snprintf(key, sizeof key, "%s in-place wrong len=%d", name, len);
+					v_violation(key, "ret=%d or product mismatch c=%02x when source and destination are the same block", r, c);
+				}
+				if (g_check()) {
+					snprintf(key, sizeof key, "%s in-place wrote-outside len=%d", name, len);
+					v_violation(key, "%s", g_last_damage());
+				}
+			} else {
+				snprintf(key, sizeof key, "%s in-place fault len=%d", name, len);
+				v_violation(key, "fault at %s addr=%p (%s)", v_sym(v_fault_rip), (void *)v_fault_addr, v_fault_write ? "write" : "read");
+			}
+			g_reset();
+		}
 		v_nontrivial(v_mix((uint64_t)(uintptr_t)name, len));
 	}
 }
@@ -358,6 +390,30 @@ int main(int argc, char **argv)
 				v_nontrivial(v_mix(ii + 3000, len));
 			}
 		}
+		/* (g) special coefficient matrices (all 0, all 1, identity pattern, all 2, one value per row, only the last column) x k in {1,4,10} */
+		for (int kind = 0; kind < 6; kind++)
+			for (int ki = 0; ki < 3; ki++) {
+				if (!v_mine(unit++))
+					continue;
+				if (v_deadline_hit() || nfail > 60)
+					goto out;
+				static const int ks[] = { 1, 4, 10 }, ls[] = { -1, 64, 100, 300 };
+				int k = ks[ki], seq[16];
+				EC_K = k;
+				ec_coeffs(A, RMAX * k, 1000 + kind);
+				EC_K = 1;
+				for (int i = 0; i < k; i++)
+					seq[i] = (i * 3 + 1) % k;
+				for (int li = 0; li < 4; li++) {
+					int len = ls[li] < 0 ? im->minlen : ls[li];
+					if (len < im->minlen)
+						continue;
+					char sw[64];
+					snprintf(sw, sizeof sw, "g:coefficients=%s", ec_special_name[kind]);
+					run_history(im, len ? len : 1, k, w, seq, k, li & 1, -1, -1, sw);
+				}
+				v_nontrivial(v_mix(ii + 6000, kind * 8 + ki));
+			}
 		/* (d) rows 1..13 for the high-level functions */
 		if (!im->width)
 			for (int rows = 1; rows <= RMAX; rows++)
